@@ -2,7 +2,7 @@
  * Unless explicitly stated otherwise all files in this repository are licensed under the Apache-2.0 License.
  * This product includes software developed at Datadog (https://www.datadoghq.com/). Copyright 2022 Datadog, Inc.
  **/
-use swc_common::{SyntaxContext, DUMMY_SP};
+use swc_common::{Spanned, SyntaxContext};
 use swc_ecma_ast::*;
 
 use super::transform_status::TransformResult;
@@ -14,13 +14,16 @@ impl ArrowTransform {
         if arrow.body.is_expr() {
             let mut arrow_block = arrow.clone();
 
+            // the block and its return statement stand where the expression body stood: the injected
+            // declaration (which takes the span of its block) then resolves into that body
+            let body_span = arrow.body.span();
             let return_stmt = ReturnStmt {
-                span: DUMMY_SP,
+                span: body_span,
                 arg: Some(Box::new(*arrow_block.body.expr().unwrap())),
             };
 
             arrow_block.body = Box::new(BlockStmtOrExpr::BlockStmt(BlockStmt {
-                span: DUMMY_SP,
+                span: body_span,
                 ctxt: SyntaxContext::empty(),
                 stmts: vec![Stmt::Return(return_stmt)],
             }));
